@@ -25,7 +25,7 @@ LEVEL_NOTE = ("Trusted: SimRenderable (output is a function of what it is handed
               "determinism. No reference model is needed: the uncached iterator is the oracle.")
 TIERS = {
     "quick": {"runs": 16000, "max_ops": 40},
-    "thorough": {"runs": 600000, "max_ops": 40, "wall_cap": 1500},
+    "thorough": {"runs": 600000, "max_ops": 80, "wall_cap": 1500},
 }
 RULE = ("history as in C08 applied to a (cached, uncached) pair, plus image-iterator histories "
         "(next, seek, set_size / size=, terminal resize under a dynamic size, close) over "
